@@ -799,12 +799,17 @@ var closeEntryNames = map[string]bool{
 }
 
 func checkKeeperLinks(c *core.Ctx) {
+	checkLinksNotWrittenOnClose(c, "R09.4", "keep-alive link", keeperLinks,
+		"cutting it when one instance closes lets the collector free (and finalizers unmap) what other live instances still address by raw pointer")
+}
+
+func checkLinksNotWrittenOnClose(c *core.Ctx, rule, kind string, table []keeperLink, consequence string) {
 	links := map[*types.Var]keeperLink{}
-	for _, k := range keeperLinks {
+	for _, k := range table {
 		f := structField(c, k.rel, k.typ, k.field)
 		if f == nil {
 			if c.Pkg(k.rel) != nil {
-				c.Undecided("R09.4", "keep-alive link "+k.typ+"."+k.field, 0, "field not found (renamed?): the table of keep-alive links must be re-confirmed")
+				c.Undecided(rule, kind+" "+k.typ+"."+k.field, 0, "field not found (renamed?): the table must be re-confirmed")
 			}
 			continue
 		}
@@ -826,7 +831,7 @@ func checkKeeperLinks(c *core.Ctx) {
 			work = append(work, fn)
 		}
 	}
-	c.Count("close_entry_points", len(work))
+	c.Count(rule+"_close_entry_points", len(work))
 	for len(work) > 0 {
 		fn := work[0]
 		work = work[1:]
@@ -849,7 +854,7 @@ func checkKeeperLinks(c *core.Ctx) {
 			work = append(work, g)
 		}
 	}
-	c.Count("close_path_functions", len(reach))
+	c.Count(rule+"_close_path_functions", len(reach))
 	pathTo := func(fn *ssa.Function) string {
 		var parts []string
 		for i := 0; fn != nil && i < 12; i++ {
@@ -943,10 +948,10 @@ func checkKeeperLinks(c *core.Ctx) {
 	for _, f := range fs {
 		k, a := links[f], res[f]
 		name := k.typ + "." + k.field
-		c.Check(len(a.closeWrites) == 0, "R09.4", "keep-alive link "+name+" is not written on close paths", f.Pos(), fmt.Sprintf("%d write(s), none reachable from a Close/Delete entry point", a.writes),
-			"the link is written at "+strings.Join(a.closeWrites, "; ")+" – "+k.why+"; cutting it when one instance closes lets the collector free (and finalizers unmap) what other live instances still address by raw pointer")
+		c.Check(len(a.closeWrites) == 0, rule, kind+" "+name+" is not written on close paths", f.Pos(), fmt.Sprintf("%d write(s), none reachable from a Close/Delete entry point", a.writes),
+			"it is written at "+strings.Join(a.closeWrites, "; ")+" – "+k.why+"; "+consequence)
 		if k.growOnly {
-			c.Check(len(a.shrink) == 0, "R09.4", "keep-alive list "+name+" only grows", f.Pos(), "every assignment is append(<the same list>, …)",
+			c.Check(len(a.shrink) == 0, rule, "keep-alive list "+name+" only grows", f.Pos(), "every assignment is append(<the same list>, …)",
 				"the list is rebuilt / truncated at "+strings.Join(a.shrink, "; ")+": an instance whose function references may still be in use is dropped from it – "+k.why)
 		}
 	}
